@@ -15,6 +15,7 @@ import (
 	"errors"
 	"fmt"
 	"math/big"
+	"regexp"
 	"sort"
 	"strings"
 	"time"
@@ -1005,14 +1006,15 @@ type lqStepObs struct {
 	Escrow  string       `json:"escrow"`
 	Counter int          `json:"counter"`
 	Denoms  []lqDenObs   `json:"denoms"`
-	Liq     [][]string   `json:"liq"`      // denom, holder, tokens, of which bank coins
-	Supply  [][]string   `json:"supply"`   // denom, supply
+	Liq     [][]string   `json:"liq"`    // denom, holder, tokens, of which bank coins
+	Supply  [][]string   `json:"supply"` // denom, supply
 }
 
 func (s *lqSnap) obs(res int, err error) (lqStepObs, string) {
 	o := lqStepObs{Res: res, Escrow: s.Escrow.String(), Counter: s.Counter, Denoms: []lqDenObs{}, Liq: [][]string{}, Supply: [][]string{}}
 	if err != nil {
-		o.Err = err.Error()
+		// the "lesser than %d" message of Liquidate prints a pointer: not canonical
+		o.Err = lqPtrRe.ReplaceAllString(err.Error(), "{ptr}")
 		if len(o.Err) > 200 {
 			o.Err = o.Err[:200]
 		}
@@ -1049,6 +1051,8 @@ func (s *lqSnap) obs(res int, err error) (lqStepObs, string) {
 		coqList(dens), coqList(liq), coqList(sup))
 	return o, c
 }
+
+var lqPtrRe = regexp.MustCompile(`\{\d+\}`)
 
 func lqErrCode(err error) int {
 	switch {
